@@ -511,10 +511,47 @@ def make_border_machine(ctx, with_merges):
                 return
             self.step("reopen", switch=switch)
 
+        @rule(data=st.data(), shape=st.sampled_from(["other_side", "partial_overlap"]), looks=st.lists(st.tuples(
+            st.sampled_from([0.25, 0.5, 1.0, 2.0, 3.25]), rgbs, st.sampled_from(["solid", "dashes", "dots"])), min_size=3, max_size=3, unique_by=lambda t: t[0]))
+        def sandwich(self, data, shape, looks):
+            """An earlier stroke, a second one over (part of) the same edges drawn differently, then the first extent again:
+            the third is the last writer although a record for its extent already exists."""
+            self.ensure(data)
+            if self.dead:
+                return
+            ex = self.ex
+            side = data.draw(st.sampled_from(SIDES))
+            horiz = side in ("top", "bottom")
+            n = ex.cols if horiz else ex.rows
+            row = data.draw(st.integers(0, ex.rows - 1))
+            col = data.draw(st.integers(0, ex.cols - 1))
+            pos = col if horiz else row
+            length = 1 if ex.merges else data.draw(st.integers(1, n - pos))
+            first = dict(row=row, col=col, side=side, length=length)
+            if shape == "other_side":
+                opp = {"top": ("bottom", -1, 0), "bottom": ("top", 1, 0), "left": ("right", 0, -1), "right": ("left", 0, 1)}[side]
+                nr, nc = row + opp[1], col + opp[2]
+                if not (0 <= nr < ex.rows and 0 <= nc < ex.cols):
+                    return
+                second = dict(row=nr, col=nc, side=opp[0], length=length)
+            else:
+                if ex.merges or pos == 0:
+                    return
+                start = data.draw(st.integers(0, pos - 1))
+                l2 = data.draw(st.integers(pos - start + 1, min(n - start, pos - start + length)))
+                second = dict(row=row if horiz else start, col=start if horiz else col, side=side, length=l2)
+            for where, (w, rgb, style) in zip((first, second, first), looks):
+                if self.dead:
+                    return
+                self.step("stroke", **where, width=w, rgb=rgb, style=style)
+
         def teardown(self):
             try:
                 if not self.dead and self.ex.doc is not None:
-                    self.ex.finish()
+                    if self.ex.log and self.ex.log[-1]["op"] != "reopen":
+                        self.step("reopen", switch=False)  # every history ends with what a reader of the saved file sees
+                    if not self.dead:
+                        self.ex.finish()
             finally:
                 self.ex.close()
 
